@@ -866,7 +866,7 @@ class Lookup(Harness):
 
     def configs(self, tier):
         q = tier == 'quick'
-        dimss = [(2, ), (2, 2), (1, 2)] if q else [(2, ), (3, ), (2, 2),
+        dimss = [(2, ), (2, 2), (1, 2), (2, 2, 2)] if q else [(2, ), (3, ), (2, 2),
                                                     (1, 2), (3, 2), (2, 3),
                                                     (2, 2, 2), (3, 3)]
         out = [dict(dims=[], fixed=[], extra='match')]
